@@ -107,6 +107,20 @@ func runC04(t *testing.T, e *worlds.Env, tier string) (bool, any) {
 				sample.Target = "handler tls"
 			}
 			routes = layer4.RouteList{layer4.VerifNewRoute(nil, []layer4.NextHandler{h, drain})}
+			if sample.Target == "handler proxy_protocol" && tp.Prob(1, 2, "ip-behind-pp") {
+				// the usual set-up: accept the header, then filter by the address it declares - the
+				// shipped ip matchers evaluate whatever addresses the header left on the connection
+				rip := &layer4.MatchRemoteIP{Ranges: []string{"192.0.2.0/24", "2001:db8::/32"}}
+				lip := &layer4.MatchLocalIP{Ranges: []string{"198.51.100.0/24"}}
+				if rip.Provision(e.Ctx) == nil && lip.Provision(e.Ctx) == nil {
+					routes = layer4.RouteList{
+						layer4.VerifNewRoute(nil, []layer4.NextHandler{h}),
+						layer4.VerifNewRoute([]layer4.MatcherSet{{rip}, {lip}}, []layer4.NextHandler{drain}),
+						layer4.VerifNewRoute([]layer4.MatcherSet{{&layer4.MatchNot{MatcherSets: []layer4.MatcherSet{{rip}}}}}, []layer4.NextHandler{drain}),
+					}
+					sample.Target += " + remote_ip/local_ip"
+				}
+			}
 		} else {
 			ms, err := p.Matchers(e.Ctx)
 			if err != nil || len(ms) == 0 {
